@@ -3,9 +3,14 @@
 package server
 
 import (
+	"context"
 	"errors"
 	"net/http"
 	"time"
+
+	"perkeep.org/pkg/blob"
+	"perkeep.org/pkg/blobserver"
+	"perkeep.org/pkg/sorted"
 )
 
 // VerifDisableShareDelay turns off the anti-timing delay that the share
@@ -33,4 +38,45 @@ func VerifShareServe(h http.Handler, rw http.ResponseWriter, req *http.Request) 
 		return se.code.String(), true
 	}
 	return "otherError", true
+}
+
+// VerifNewSyncHandler builds a sync handler exactly as newSyncFromConfig does
+// for a plain (non-idle, no full sync, no validation) configuration --
+// newSyncHandler, readQueueToMemory, AddReceiveHook(sh.enqueue) -- but does
+// not start the syncLoop goroutine, so that a verification harness can drive
+// the copy loop step by step with VerifCopyBlob / VerifRunSync.
+func VerifNewSyncHandler(srcName, destName string, src, dest blobserver.Storage, queue sorted.KeyValue) (*SyncHandler, error) {
+	sh := newSyncHandler(srcName, destName, src, dest, queue)
+	if err := sh.readQueueToMemory(); err != nil {
+		return nil, err
+	}
+	blobserver.GetHub(src).AddReceiveHook(sh.enqueue)
+	return sh, nil
+}
+
+// VerifCopyBlob runs one copy attempt (copyBlob, including its deferred
+// setError) of sb, as a copyWorker would.
+func (sh *SyncHandler) VerifCopyBlob(ctx context.Context, sb blob.SizedRef) error {
+	return sh.copyBlob(ctx, sb)
+}
+
+// VerifRunSync runs one batch of the copy loop over the in-memory pending
+// list, as one iteration of syncLoop does, and returns the number of blobs
+// copied.
+func (sh *SyncHandler) VerifRunSync() int {
+	return sh.runSync(sh.fromName, sh.enumeratePendingBlobs)
+}
+
+// VerifPending returns copies of the in-memory needCopy and copying sets.
+func (sh *SyncHandler) VerifPending() (needCopy map[blob.Ref]uint32, copying []blob.Ref) {
+	sh.mu.Lock()
+	defer sh.mu.Unlock()
+	needCopy = make(map[blob.Ref]uint32, len(sh.needCopy))
+	for k, v := range sh.needCopy {
+		needCopy[k] = v
+	}
+	for k := range sh.copying {
+		copying = append(copying, k)
+	}
+	return
 }
